@@ -36,6 +36,30 @@ BUILT = {
             'documents contradict each other), chains open at end of file. #mute is a counter as pinned by the repository tests. '
             'Candidate violations are confirmed through the real CLI.',
             'DESIGN.md 3/C08'),
+    'C02': ('model_checking',
+            'explicit-state exploration of line histories on the real assembler against a reference two-pass layout model',
+            'Every history over a 27-symbol line alphabet (labels, instructions of three sizes, data, fills, origins, alignments, '
+            'zone switches, muting, an excluded block; forward and backward references) up to depth 3 (thorough 4), and one level '
+            'deeper over a core alphabet, under three configurations, is assembled by the real code; the whole image must equal '
+            'the reference layout, which fixes every address, every label value (read out by a suffix) and every line size.',
+            'Reference model mc/refasm.py. A label directly followed by an address-moving directive is not judged when referenced. '
+            'Candidate violations are confirmed through the real CLI.',
+            'DESIGN.md 3/C02'),
+    'C03': ('model_checking',
+            'explicit-state exploration of program histories x exhaustive window product on the real assembler',
+            'For every accepted program history (depth <=3, thorough <=4, three configurations incl. predefined data and a '
+            'non-zero origin) every (start, end, fill) window over the address range +2 is assembled by the real CLI callback '
+            'and the image compared with the reference window onto the reference memory map.',
+            'Reference model mc/refasm.py (muted lines occupy addresses, emit nothing). Windows with end < start-1 not generated.',
+            'DESIGN.md 3/C03'),
+    'C04': ('model_checking',
+            'exhaustive enumeration of line placements in every source order against a pairwise-disjointness oracle',
+            'Every ordered pair and triple (thorough: quadruple) of byte-producing lines over start x kind x length (data, fills, '
+            'instructions, zone-relative origins into overlapping zones, a line in an included file, a predefined data block, '
+            'zero-length lines) is assembled; rejection is expected iff two lines of length >=1 share an address, otherwise the '
+            'image must be the union.',
+            'Reference model mc/refasm.py; muted lines not generated.',
+            'DESIGN.md 3/C04'),
 }
 
 NOT_BUILT_REASON = 'check not built yet (work in progress in this session); no claim made'
